@@ -74,6 +74,7 @@ def run(ctx: Ctx):
         if not ctx.quick or per[e.cls] <= 8:
             sel.append((i, e))
     progs = []      # (key, which, cplx, eqs, out, A, fn, shapes)
+    impls_of = {}
     nv = {}
     unsupported_all = {}
     for i, e in sel:
@@ -107,6 +108,7 @@ def run(ctx: Ctx):
             for u in unsup:
                 unsupported_all[u] = unsupported_all.get(u, 0) + 1
             progs.append((key, which, cplx, eqs, out, e, fn, shp, dt, bool(unsup)))
+            impls_of[len(progs) - 1] = J.dump.last_impls
     # Coq reflection
     shard = 40
     bodies = []
@@ -149,6 +151,7 @@ def run(ctx: Ctx):
                            repr({k: v for k, v in key.items() if k not in ('A', 'B', 'd', 'h', 'x', 'diagonal')}))
         else:
             ctx.obligation(False, f"lin_check rejects the traced {which} map of {e.cls} (primitive {prim}); failing input found")
+    validate_rule_table(ctx, progs, codes, impls_of)
     presented_as_linear(ctx)
     ctx.traces = len(progs)
     ctx.notes.append(f"jaxprs certified linear by reflection: {n_acc}/{len(progs)}; "
@@ -156,6 +159,61 @@ def run(ctx: Ctx):
     if ctx.violations:
         # obligations that are explained by a concrete failing input are subsumed by the violation
         ctx.broken = [b for b in ctx.broken if "failing input found" not in b["what"]]
+
+
+def validate_rule_table(ctx, progs, codes, impls_of):
+    """The per-primitive table is the trusted hypothesis of the soundness theorem.  Exercise it: for a
+    sample of accepted programs re-evaluate every intermediate variable on x, y and a x + b y and
+    check that the kind lin_check assigned to the variable describes how its values relate."""
+    import jax.numpy as jnp
+    sample = [i for i, c in enumerate(codes) if c == 0 and i in impls_of]
+    ctx.rng.shuffle(sample)
+    sample = sample[: ctx.n(25, 400)]
+    if not sample:
+        return
+    items = []
+    for i in sample:
+        key, which, cplx, eqs, out, e, fn, shp, dt, unsup = progs[i]
+        items.append(f"({'true' if cplx else 'false'}, {J.coq_jaxpr(eqs)})")
+    shard = 20
+    bodies = ["Definition progs : list (bool * jaxpr) := " + coq_list(items[s:s + shard], ";\n ") + ".\n"
+              "Eval vm_compute in (map (fun c => kinds_of (fst c) (snd c)) progs)." for s in range(0, len(items), shard)]
+    kinds_all = []
+    for o in coq_eval_shards("C06_kinds", HEADER, bodies):
+        m = re.search(r"=\s*\[(.*)\]\s*:\s*list \(list nat\)", o, re.S)
+        if not m:
+            raise Broken("cannot parse kinds output", o[-800:])
+        for grp in re.findall(r"\[([^\[\]]*)\]", m.group(1)):
+            kinds_all.append([int(t.strip().replace("%nat", "")) for t in grp.split(";") if t.strip()])
+    nvars = nbad = 0
+    for i, kinds in zip(sample, kinds_all):
+        key, which, cplx, eqs, out, e, fn, shp, dt, unsup = progs[i]
+        n = L.size_of(shp)
+        cdt = np.complex128 if L.is_complex(dt) else np.float64
+        def vec():
+            v = np.array([ctx.rng.randint(-8, 8) / 4 for _ in range(n)], dtype=np.float64)
+            if L.is_complex(dt):
+                v = v + 1j * np.array([ctx.rng.randint(-8, 8) / 4 for _ in range(n)])
+            return jnp.asarray(v.astype(dt))
+        a = complex(1.5, -0.5) if cplx else 1.5
+        b = complex(-0.25, 2.0) if cplx else -2.0
+        try:
+            bad = J.validate_table(impls_of[i], kinds, vec(), vec(), a, b, 1e-9 if L.is_double(dt) else 2e-4)
+        except Exception as ex:   # noqa: BLE001
+            ctx.notes.append(f"table validation could not re-evaluate {e.cls} {which}: {type(ex).__name__}")
+            continue
+        if bad is None:
+            continue
+        nvars += len(kinds) - 1
+        for (vi, k, dev) in bad[:1]:
+            nbad += 1
+            prim = eqs[vi - 1][0] if vi >= 1 else 'input'
+            ctx.obligation(False, f"rule table: primitive {prim} typed {['constant','zero','linear','conjugate-linear'][k]} in the "
+                                  f"jaxpr of {e.cls} {which} does not behave so on a sample (deviation {dev:.3g})",
+                           repr({kk: vv for kk, vv in key.items() if kk not in ('A', 'B', 'd', 'h', 'x', 'diagonal')}))
+    ctx.notes.append(f"rule table exercised on {nvars} intermediate variables of {len(sample)} accepted programs: "
+                     f"{nbad} deviations")
+    ctx.obligation(nbad == 0, "per-primitive table respected on all sampled primitive instances")
 
 
 def presented_as_linear(ctx):
